@@ -58,6 +58,7 @@ class Unit:
         self.path = None
         self.not_covered = []
         self.globals = []
+        self.sercov = []      # (class name, {field: reason})
 
 
 def _opts(words):
@@ -138,6 +139,12 @@ def parse(path):
             elif d == 'lib':
                 k, v = ln[1:].split(None, 1)[1].split(' = ')
                 u.lib[k.strip()] = v.strip()
+            elif d == 'sercov':
+                excl = {}
+                for wd in ln[1:].split(None, 2)[2:]:
+                    for m in re.finditer(r'(\w+):"([^"]*)"', wd):
+                        excl[m.group(1)] = m.group(2)
+                u.sercov.append((words[1], excl))
             elif d == 'global':
                 u.globals.append(words[1])
             elif d == 'opaque':
